@@ -156,7 +156,9 @@ claim("C13", "proof",
       "Coq theorems about a line-by-line model of the intrusive reference counting (allocation holding child handles, "
       "handle copy, the work-list destructor): the count invariant holds in every state reachable by any operation "
       "sequence, the instrumented destructor never touches a dead cell and frees each cell once, arguments are never "
-      "invalidated, alive <-> reachable (leak-free), the destructor loop is bounded by the edge count; tie: after every "
+      "invalidated, alive <-> reachable (leak-free), the destructor loop is bounded by the edge count; copy-assignment from a "
+      "handle stored inside a node (t = t->lhs()) is safe in libfive's retain-then-release order and refuted for the "
+      "destroy-then-copy order, the two agreeing whenever the old node has another owner; tie: after every "
       "call of generated C API / C++ sequences the refcount of each live handle's node and the live-node counter must equal "
       "the specification computed by the extracted model; oracle: counter returns to baseline after all deletes, no "
       "exceptions, 2*10^5..10^6-node chains / fans / remap chains destroyed on a 256 KB stack.",
